@@ -21,7 +21,7 @@ Definition is_handler (e : ev) : bool :=
 Definition is_stop_call (e : ev) : bool :=
   match e with ECloseCall | ECancelCall => true | _ => false end.
 
-(** ** tag 2: both calls return, nothing hangs or panics *)
+(** ** tag 2: every call returns, nothing hangs or panics *)
 
 Definition has (e : ev) (tr : list ev) : bool := existsb (ev_beq e) tr.
 Definition has_subret (tr : list ev) : bool :=
@@ -29,20 +29,27 @@ Definition has_subret (tr : list ev) : bool :=
 Definition has_closeret (tr : list ev) : bool :=
   existsb (fun e => match e with ECloseRet _ => true | _ => false end) tr.
 
+Definition count (p : ev -> bool) (tr : list ev) : nat := List.length (filter p tr).
+
 Definition k_term (tr : list ev) : bool :=
   negb (has EHang tr) && negb (has EPanic tr)
-  && (negb (has ESubCall tr) || has_subret tr)
-  && (negb (has ECloseCall tr) || has_closeret tr).
+  && Nat.eqb (count (ev_beq ESubCall) tr)
+             (count (fun e => match e with ESubRet _ => true | _ => false end) tr)
+  && Nat.eqb (count (ev_beq ECloseCall) tr)
+             (count (fun e => match e with ECloseRet _ => true | _ => false end) tr).
 
 (** ** tag 3: one disconnect per ended attempt, reset before every retry,
        resubscription after every failure unless closed / cancelled *)
 
-Inductive phase := PStart (k : nat) | PAtt (k : nat) | PDisc (k : nat) | PEnd | PBad.
+Inductive phase := PStart (k : nat) | PAtt (k : nat) | PDisc (k : nat) | PEnd (k : nat) | PBad.
 
 Definition disc_step (reconnect : bool) (m : bool * phase) (e : ev) : bool * phase :=
   let '(stopped, ph) := m in
   match e with
   | ECloseCall | ECancelCall => (true, ph)
+  | ESubCall =>
+      (* the first call, or a further call after the previous one returned *)
+      (stopped, match ph with PStart k => PStart k | PEnd k => PStart (S k) | _ => PBad end)
   | EFactory k' =>
       (stopped, match ph with PStart k => if Nat.eqb k k' then PAtt k else PBad | _ => PBad end)
   | EDisc =>
@@ -51,8 +58,8 @@ Definition disc_step (reconnect : bool) (m : bool * phase) (e : ev) : bool * pha
   | ESubRet _ =>
       (stopped,
        if reconnect
-       then match ph with PDisc _ => if stopped then PEnd else PBad | _ => PBad end
-       else match ph with PAtt _ => PEnd | _ => PBad end)
+       then match ph with PDisc k => if stopped then PEnd k else PBad | _ => PBad end
+       else match ph with PAtt k => PEnd k | _ => PBad end)
   | EConn | EUpd _ _ _ | ESync | ERecv _ _ | EImplSub _ =>
       (stopped, match ph with PAtt _ => ph | _ => PBad end)
   | _ => m
@@ -139,6 +146,12 @@ Definition after_step (reconnect : bool) (m : astate) (e : ev) : astate :=
   match e with
   | ECloseRet ok => {| a_closed := Some ok; a_curmsg := a_curmsg m; a_seen := a_seen m; a_bad := false |}
   | ERecv k i => {| a_closed := a_closed m; a_curmsg := (k, i); a_seen := a_seen m; a_bad := false |}
+  | ESubCall =>
+      (* ReconnectClient: closed is a latch.  A bare client is re-opened by a new
+         Subscribe ([c.closed = false]): the clause is per Subscribe call. *)
+      if reconnect
+      then {| a_closed := a_closed m; a_curmsg := a_curmsg m; a_seen := a_seen m; a_bad := false |}
+      else {| a_closed := None; a_curmsg := a_curmsg m; a_seen := None; a_bad := false |}
   | EConn | EUpd _ _ _ | ESync =>
       match a_closed m with
       | None => m
